@@ -147,7 +147,9 @@ impl<'a> __Type<'a> {
     }
 
     async fn interfaces(&self) -> Option<Vec<__Type<'a>>> {
-        if let TypeDetail::Named(registry::MetaType::Object { name, .. }) = &self.detail {
+        if let TypeDetail::Named(registry::MetaType::Object { name, .. })
+        | TypeDetail::Named(registry::MetaType::Interface { name, .. }) = &self.detail
+        {
             Some(
                 self.registry
                     .implements
